@@ -109,9 +109,10 @@ func (cc *CheckCtx) runStage(s stage) {
 	key := s.Pkg + "." + s.Func
 	cc.Funcs[key] = true
 	if fr.Err != "" {
-		cc.ToolErr = append(cc.ToolErr, key+": "+fr.Err)
+		cc.funcErr(s.Pkg, s.Func, fr.Err)
 		return
 	}
+	cc.noteWarn(fr)
 	sc.spec = cc.W.Specs[s.Pkg]
 	for k := range fr.VC.Inlined {
 		cc.Inlined[k] = true
@@ -205,6 +206,9 @@ func (cc *CheckCtx) runStage(s stage) {
 				for _, in := range insts {
 					if in.Label == b.Label {
 						tried++
+						if ci, ok := concretizeInst(&res, in); ok {
+							in = ci
+						}
 						cc.replayInstance(fr, in, &r)
 						break
 					}
@@ -218,6 +222,41 @@ func (cc *CheckCtx) runStage(s stage) {
 
 // ---------- instance generators ----------
 
+// objInstsGround: like objInsts, but the metrics that are not enumerated are fixed at code 0 (the
+// whole object is constant).  Used where the function's terms legitimately read those metrics and
+// the lifting to other values is a separate (relational) obligation.
+func objInstsGround(fr *FuncRun, sc *stageCtx, metrics []string, fixed map[string]int) []CaseInst {
+	out := objInsts(fr, sc, metrics, fixed)
+	rest := map[*Term]*Term{}
+	for _, s := range receiverSyms(fr) {
+		rest[restSym(s)] = BVLit(0, 8)
+	}
+	for i := range out {
+		memo := map[*Term]*Term{}
+		for k, v := range out[i].Sub {
+			out[i].Sub[k] = Subst(v, rest, memo)
+		}
+	}
+	return out
+}
+
+// fixedAt returns the code assignment that fixes the given metrics at the value val.
+func fixedAt(rp *Repr, metrics []string, val string) map[string]int {
+	m := map[string]int{}
+	for _, x := range metrics {
+		f := rp.Field(x)
+		if f == nil {
+			continue
+		}
+		for i, c := range f.Codes {
+			if c == val {
+				m[x] = i
+			}
+		}
+	}
+	return m
+}
+
 func objInsts(fr *FuncRun, sc *stageCtx, metrics []string, fixed map[string]int) []CaseInst {
 	syms := receiverSyms(fr)
 	var out []CaseInst
@@ -230,7 +269,7 @@ func objInsts(fr *FuncRun, sc *stageCtx, metrics []string, fixed map[string]int)
 			codes[k] = v
 		}
 		b := packObject(sc.rp, codes)
-		out = append(out, CaseInst{Sub: objSub(syms, b), Label: objLabel(sc.rp, codes, order)})
+		out = append(out, CaseInst{Sub: objSubP(syms, b, knownMask(sc.rp, codes)), Label: objLabel(sc.rp, codes, order)})
 	})
 	return out
 }
